@@ -217,6 +217,9 @@ ATOM_TEMPLATES = [
     ('[$]C([N{ann}])O[$]', 'N'),
     ('[$]CC[NH3+{ann}]', 'N'),
     ('[$]CC(=[O{ann}])[$]', 'O'),
+    # an upper-case atom directly followed by an aromatic atom whose letters spell another element (Sc): two atoms
+    ('[$]CSc1ccc(cc1)[N{ann}][$]', 'N'),
+    ('Sc1ccc(cc1)C[O{ann}][$]', 'O'),
 ]
 # fragments that are ONE atom (the reader of atomistic fragments returns early for them); (text, element, largest reuse
 # count whose base graph the descriptors can serve).  A bracket atom without hydrogens is a one-node graph from the
